@@ -1,8 +1,8 @@
 package props
 
 import (
-	"math"
 	"fmt"
+	"math"
 	"math/rand"
 	"net/url"
 	"reflect"
@@ -46,12 +46,12 @@ func c18Markers(o drive.Out) (set []string, other []string) {
 func init() {
 	core.Register(&core.Prop{
 		ID: "C18",
-		Rule: "one scalar value (string incl. characters that matter for URL transport: & = + % ? # space CJK; bool; all int / uint widths; float32/64) under a list of 1-4 rules that the documentation marks as supported by all inputs, every rule instance with a unique custom message; presented as struct field (tag and RM), Var, map[string]T, map[string]interface{}, []map[string]T and, for strings, Url in raw form (unreserved characters only), percent-encoded form with the parameter first / middle / last among 0-4 decoys, and whole-URL-encoded form. " +
+		Rule: "one scalar value (string incl. characters that matter for URL transport: & = + % ? # space CJK; bool; all int / uint widths; float32/64) under a list of 1-4 rules that the documentation marks as supported by all inputs, every rule instance with a unique custom message; presented as struct field (tag and RM; alone and between time.Time, string and integer neighbours), Var, map[string]T, map[string]interface{}, []map[string]T and, for strings, Url in raw form (unreserved characters only), percent-encoded form with the parameter first / middle / last among 0-4 decoys, and whole-URL-encoded form. " +
 			"The set of rule instances reported must be identical for all carriers. distinct = distinct (type, value, rule list); non-trivial = at least one rule reported by some carrier",
 		Shards: func(t core.Tier) int { return 16 },
 		Run:    runC18,
 		Check: func(r *core.Result, t core.Tier) {
-			for _, cr := range []string{drive.Var, drive.StructRM, drive.StructTag, drive.MapT, drive.SliceMap, "url-enc-decoys", drive.UrlEncFull, drive.UrlRaw, drive.UrlPtr} {
+			for _, cr := range []string{drive.Var, drive.StructRM, drive.StructTag, drive.StructCtx, drive.MapT, drive.SliceMap, "url-enc-decoys", drive.UrlEncFull, drive.UrlRaw, drive.UrlPtr} {
 				if r.Counters["compared_nonempty|"+cr] < 300 {
 					r.Inconc(fmt.Sprintf("carrier compared on too few tuples with a non-empty marker set: %s=%d", cr, r.Counters["compared_nonempty|"+cr]))
 				}
@@ -126,7 +126,7 @@ func c18Case(res *core.Result, rng *rand.Rand, t reflect.Type, v reflect.Value, 
 		s, oth := c18Markers(o)
 		all = append(all, obs{cr, o, s, oth})
 	}
-	for _, cr := range []string{drive.Var, drive.StructRM, drive.StructTag, drive.MapT, drive.MapIface, drive.SliceMap, drive.UrlRaw, drive.UrlEncFull, drive.UrlPtr} {
+	for _, cr := range []string{drive.Var, drive.StructRM, drive.StructTag, drive.StructCtx, drive.MapT, drive.MapIface, drive.SliceMap, drive.UrlRaw, drive.UrlEncFull, drive.UrlPtr} {
 		if o, ok := drive.Carry(cr, v, rules); ok {
 			add(cr, o)
 		}
